@@ -152,6 +152,42 @@ func init() {
 		}
 		return nil
 	})
+	// sync.Pool, sequentially: Put stores the object; Get hands back either a stored object
+	// (any of them; both outcomes are explored) or a fresh one from New
+	poolItems := func(e *Engine, cell *Value) *[]Value {
+		m, _ := e.side["pools"].(map[*Value]*[]Value)
+		if m == nil {
+			m = map[*Value]*[]Value{}
+			e.side["pools"] = m
+		}
+		if m[cell] == nil {
+			m[cell] = &[]Value{}
+		}
+		return m[cell]
+	}
+	reg("(*sync.Pool).Put", func(e *Engine, fn *ssa.Function, a []Value, s ssa.Instruction) Value {
+		items := poolItems(e, e.deref(a[0], s))
+		*items = append(*items, a[1])
+		return nil
+	})
+	reg("(*sync.Pool).Get", func(e *Engine, fn *ssa.Function, a []Value, s ssa.Instruction) Value {
+		cell := e.deref(a[0], s)
+		items := poolItems(e, cell)
+		if n := len(*items); n > 0 && e.decide(e.freshBool("pool_reuses")) {
+			v := (*items)[n-1]
+			*items = (*items)[:n-1]
+			return v
+		}
+		st, ok := (*cell).(Struct)
+		if ok {
+			newFn := getStructField(st, e.namedType("sync", "Pool"), "New")
+			switch newFn.(type) {
+			case *ssa.Function, *Closure:
+				return e.call(newFn, nil, s)
+			}
+		}
+		return Iface{}
+	})
 	noopv := func(e *Engine, fn *ssa.Function, a []Value, s ssa.Instruction) Value { return nil }
 	for _, m := range []string{"(*sync.Mutex).Lock", "(*sync.Mutex).Unlock", "(*sync.RWMutex).Lock", "(*sync.RWMutex).Unlock", "(*sync.RWMutex).RLock", "(*sync.RWMutex).RUnlock"} {
 		reg(m, noopv)
